@@ -201,6 +201,34 @@ def run(ctx):
             r.fail(inst, func=hf.name, sig=f'helper loop trips {seen}', loc=hf.mod.src, msg=f'{hname[1:]} iterates {seen} times, expected its count argument (whole row / column)')
     r.require_min(6)
 
+    # ---------------- R04g field arithmetic is total on the field
+    r = ctx.rule('R04g', 'rs_galois_mult / div / inverse special-case only the zero operands (0 for x == 0 or y == 0, -1 for division by 0)',
+                 'an extra range check that returns 0 for a valid element (e.g. 0xffff) changes parity words and generator entries that hit that element')
+    from ..paths import enumerate_paths as _ep4
+    gmod = [m for m in P.mods if m.src == 'src/builtin/rs_vand/rs_galois.c'][0]
+    for gname, zero_ok in (('@rs_galois_mult', {'arg0', 'arg1'}), ('@rs_galois_div', {'arg0'}), ('@rs_galois_inverse', set())):
+        gf_ = gmod.functions.get(gname)
+        if gf_ is None:
+            raise AnalysisBroken(f'anchor vanished: {gname}')
+        bad = None
+        npth = 0
+        for pth in _ep4(P, gf_):
+            npth += 1
+            T = [(pr, a, b) for pr, a, b, w, i_ in pth.truths()]
+            if pth.ret in ('0', '-1') or re.match(r'^-?\d+$', pth.ret or ''):
+                zero_ops = {a for pr, a, b in T if pr == 'eq' and b == '0' and re.match(r'^arg\d$', a)}
+                allowed = zero_ok if pth.ret == '0' else {'arg1'} if gname == '@rs_galois_div' else {'arg0'}
+                if not (zero_ops & allowed):
+                    bad = (pth.ret, T)
+        inst = f'{gname[1:]}: constant results only for zero operands'
+        if bad:
+            r.fail(inst, func=gf_.name, sig=f'returns {bad[0]} without a zero operand', loc=gf_.mod.src,
+                   msg=f'{gname[1:]} returns the constant {bad[0]} on a path whose conditions are {bad[1][-3:]}: not a test of an operand against 0, so the function '
+                       'is not the field operation for every element')
+        else:
+            r.ok(inst, func=gf_.name, loc=gf_.mod.src, facts={'paths': npth})
+    r.require_min(3)
+
     # ---------------- R04f accumulators are cleared
     r = ctx.rule('R04f', 'a local scratch buffer that an accumulating kernel writes inside a loop is cleared (or freshly allocated) in the same iteration',
                  'the kernels XOR into their destination: a scratch buffer reused across iterations without clearing carries the previous element into the next one')
